@@ -7,6 +7,7 @@ from typing import Any, ClassVar
 
 from tree_sitter import Node
 
+from nix_manipulator.expressions.points import point_row
 from nix_manipulator.expressions.comment import Comment
 from nix_manipulator.expressions.expression import NixExpression, TypedExpression
 from nix_manipulator.expressions.identifier import Identifier
@@ -142,7 +143,7 @@ class Inherit(TypedExpression):
                     comment = Comment.from_cst(child)
                     inline_to_prev = (
                         last_name_node is not None
-                        and child.start_point.row == last_name_node.end_point.row
+                        and point_row(child.start_point) == point_row(last_name_node.end_point)
                         and names
                     )
                     if inline_to_prev:
@@ -179,7 +180,7 @@ class Inherit(TypedExpression):
                     )
                     if (
                         last_name_node is not None
-                        and comment_node.start_point.row == last_name_node.end_point.row
+                        and point_row(comment_node.start_point) == point_row(last_name_node.end_point)
                     ):
                         comment.inline = True
                     prev_trailing = comment_node
